@@ -40,7 +40,7 @@ ASSUMPTIONS = [
     'C05_perr: out-of-line libstdc++ 12 functions are C models (harness/c05_perr_models.h, lib/models.h), validated the same way: std::runtime_error '
     '(const std::string& / copy / move constructors, destructor, what(): the message is a NUL-terminated copy in a 48/64-byte buffer, longer messages are reported; '
     'copies share it; never freed), std::string::_M_create/_M_append/_M_mutate/_M_replace on the real SSO layout (heap buffers are objects of constant size 64, a '
-    'larger request is reported; appending within the capacity of a heap buffer is reported; doubling growth policy), std::exception_ptr::_M_addref/_M_release '
+    'larger request is reported; quick tier: appending within the capacity of a heap buffer is reported - it cannot happen with 3-digit numerals -, thorough tier: modelled; doubling growth policy), std::exception_ptr::_M_addref/_M_release '
     '(no-ops: exception objects are never freed in the lowered exception model), std::current_exception (innermost exception being handled, or null), '
     'std::rethrow_exception (throws the same object again with its original dynamic type), std::nested_exception::~nested_exception (no-op), strlen, '
     '__assert_fail (reported), operator delete.  Allocation never fails',
@@ -50,8 +50,9 @@ ASSUMPTIONS = [
     'type of the last 8 thrown objects is remembered for rethrow_exception; exception objects are typed allocations (--typed-exc) and are never destroyed '
     '(destructors of exception objects, reference counts and std::terminate paths are not modelled).  Virtual calls (what()) are resolved by comparing the '
     'function pointer loaded from the object\'s virtual table with the functions stored in the virtual tables of the module (--vcall); any other target is reported',
-    'C05_perr: bounds - input bytes N = 3 (quick) / 4 (thorough); initial byte, line, column (raise) and ambient byte, line, column (raise_nested, parse_nested) in '
-    '0..99 / 0..9999 (line and column of an input >= 1: memory_input asserts it), so numerals have 1..3 / 1..5 digits; source: 0..3 arbitrary non-NUL characters '
+    'C05_perr: bounds - raise / raise_nested queries: input bytes N = 3 (quick) / 4 (thorough); initial byte, line, column (raise) and ambient byte, line, column '
+    '(raise_nested) in 0..99 / 0..9999 (line and column of an input >= 1: memory_input asserts it), so numerals have 1..3 / 1..5 digits; rule and parse_nested queries: '
+    'N = 3, counters 0..99 in both tiers (the thorough tier adds the other four families and the second message variant); source: 0..3 arbitrary non-NUL characters '
     '(a NUL inside the source truncates what() as a C string: outside the claim); message texts: the three error_message constants of the wrapper TU and the '
     'default message of the rules c05p_rd / c05p_g / c05p_ptop (28..30 characters); what() therefore has at most 47 characters.  Longer sources, larger counters '
     'and longer messages run through the same code (std::string growth, the digit loop) but are outside the claim',
@@ -74,62 +75,73 @@ def plan(ctx):
     cpp = os.path.join(vf.VERIF, 'harness', 'c05_perr.cpp')
     h = os.path.join(vf.VERIF, 'harness', 'c05_perr.c')
     quick = ctx.quick()
-    N = 3 if quick else 4
-    CMAX = 99 if quick else 9999
-    MAXDIG = len(str(CMAX + N))
-    CAP = 48 if quick else 64          # what() buffer / constant-offset window of the std::string models (longer strings are reported)
-    base = {'C05P_N': N, 'C05P_CMAX': CMAX, 'C05P_MAXDIG': MAXDIG, 'C05P_NSRC': 3, 'C05P_WHAT_CAP': CAP, 'VF_STRING_SPLIT_STORES': CAP}
-    bnd = {'input_bytes': N, 'initial/ambient byte, line, column': '0..%d (line, column of an input >= 1)' % CMAX, 'digits per numeral': '1..%d' % MAXDIG,
-           'source': '0..3 arbitrary non-NUL characters', 'what() capacity of the models': CAP - 1}
-    # loops of the harness and of the models (names under this check's control) get their exact bounds; the global --unwind of a query is the bound for
-    # the loops of the code under test (digit loops of the formatting, bump, star, copy loops); unwinding assertions apply to all of them
-    C1 = CAP + 2
-    hloops = (['harness.%d:100' % i for i in range(8)] +
-              ['x_strlen.0:%d' % C1, 'exact_alloc_n.0:12', 'read_dec.0:24', 'advance.0:12', 'check_record.0:50', 'check_record.1:50', 'check_record.2:50',
-               'obs_record.0:50', 'obs_record.1:50', 'expected_message.0:50', 'expected_message.1:50', 'expected_message.2:50', 'draw_source.0:8',
-               '__exc_type_of.0:10', 'w_name.0:18', 'vf_memcpy.0:18',
-               S_ + '9_M_appendEPKcm.0:%d' % C1, S_ + '9_M_appendEPKcm.1:18', S_ + '9_M_appendEPKcm.2:%d' % C1, S_ + '9_M_appendEPKcm.3:%d' % C1,
-               S_ + '9_M_mutateEmmPKcm.0:%d' % C1, S_ + '9_M_mutateEmmPKcm.1:%d' % C1, S_ + '9_M_mutateEmmPKcm.2:%d' % C1,
-               S_ + '10_M_replaceEmmPKcm.0:%d' % C1, S_ + '10_M_replaceEmmPKcm.1:%d' % C1,
-               'x__ZNSt13runtime_errorC2ERKNSt7__cxx1112basic_stringIcSt11char_traitsIcESaIcEEE.0:%d' % C1])
-    ll2c = ['--vcall', '--eh-nested', '--inline-gep', '--typed-exc', '--split-store', str(CAP), '--include', MODELS]
-    K = max(MAXDIG, N, 3) + 2
     qs = []
 
-    def unit(group, msg, extra=()):
-        name = 'c05p_%s_%s%s' % (group.lower(), 'msg' if msg else 'default', ''.join('_' + e.replace('C05P_', '').replace('=', '').lower() for e in extra))
-        return ctx.unit(name, cpp=cpp, cxxflags=['-I', STUB, '-DC05P_' + group, '-DC05P_WITH_MSG=%d' % msg] + ['-D' + e for e in extra], ll2c=ll2c)
+    def setup(big):
+        """bounds, harness defines, loop bounds, ll2c flags for the small (quick) or the big (thorough) ranges"""
+        N = 4 if big else 3
+        CMAX = 9999 if big else 99
+        MAXDIG = len(str(CMAX + N))
+        CAP = 64 if big else 48          # what() buffer / constant-offset window of the std::string models (longer strings are reported)
+        base = {'C05P_N': N, 'C05P_CMAX': CMAX, 'C05P_MAXDIG': MAXDIG, 'C05P_NSRC': 3, 'C05P_WHAT_CAP': CAP, 'VF_STRING_SPLIT_STORES': CAP}
+        if big:
+            base['C05P_INPLACE_HEAP_APPEND'] = 1     # source:line:column + ": " can exceed the 15-byte in-object buffer: the message is then appended in place on the heap
+        bnd = {'input_bytes': N, 'initial/ambient byte, line, column': '0..%d (line, column of an input >= 1)' % CMAX, 'digits per numeral': '1..%d' % MAXDIG,
+               'source': '0..3 arbitrary non-NUL characters', 'what() capacity of the models': CAP - 1}
+        # loops of the harness and of the models (names under this check's control) get their exact bounds; the global --unwind of a query is the bound for
+        # the loops of the code under test (digit loops of the formatting, bump, star, copy loops); unwinding assertions apply to all of them
+        C1 = CAP + 2
+        hloops = (['harness.%d:100' % i for i in range(8)] +
+                  ['x_strlen.0:%d' % C1, 'exact_alloc_n.0:12', 'read_dec.0:24', 'advance.0:12', 'check_record.0:50', 'check_record.1:50', 'check_record.2:50',
+                   'obs_record.0:50', 'obs_record.1:50', 'expected_message.0:50', 'expected_message.1:50', 'expected_message.2:50', 'draw_source.0:8',
+                   '__exc_type_of.0:10', 'w_name.0:18', 'vf_memcpy.0:18',
+                   S_ + '9_M_appendEPKcm.0:%d' % C1, S_ + '9_M_appendEPKcm.1:18', S_ + '9_M_appendEPKcm.2:%d' % C1, S_ + '9_M_appendEPKcm.3:%d' % C1,
+                   S_ + '9_M_mutateEmmPKcm.0:%d' % C1, S_ + '9_M_mutateEmmPKcm.1:%d' % C1, S_ + '9_M_mutateEmmPKcm.2:%d' % C1,
+                   S_ + '10_M_replaceEmmPKcm.0:%d' % C1, S_ + '10_M_replaceEmmPKcm.1:%d' % C1,
+                   'x__ZNSt13runtime_errorC2ERKNSt7__cxx1112basic_stringIcSt11char_traitsIcESaIcEEE.0:%d' % C1])
+        ll2c = ['--vcall', '--eh-nested', '--inline-gep', '--typed-exc', '--split-store', str(CAP), '--include', MODELS]
+        K = max(MAXDIG, N, 3) + 2
+        return {'N': N, 'base': base, 'bnd': bnd, 'hloops': hloops, 'll2c': ll2c, 'K': K, 'tag': 'big' if big else 'small'}
+
+    def unit(cfg, group, msg, extra=()):
+        name = 'c05p_%s_%s%s_%s' % (group.lower(), 'msg' if msg else 'default', ''.join('_' + e.replace('C05P_', '').replace('=', '').lower() for e in extra), cfg['tag'])
+        return ctx.unit(name, cpp=cpp, cxxflags=['-I', STUB, '-DC05P_' + group, '-DC05P_WITH_MSG=%d' % msg] + ['-D' + e for e in extra], ll2c=cfg['ll2c'])
 
     def mname(msg):
         return 'error_message' if msg else 'default_message'
 
+    # raise / raise_nested: small ranges in the quick tier, big ranges in the thorough tier
+    c = setup(not quick)
     # (a) normal< R >::raise( in )
     for msg in (1, 0):
         for lazy in (0, 1):
             if quick and lazy and not msg:
                 continue
-            d = dict(base, C05P_RAISE=1, C05P_WITH_MSG=msg)
-            qs.append(vf.Query('raise/%s/%s' % (mname(msg), 'lazy' if lazy else 'eager'), unit('RAISE', msg, ['C05P_LAZY=1'] if lazy else []), h, defines=d,
-                               unwind=K, unwindset=hloops, mem_gb=3, bounds=dict(bnd, tracking='lazy' if lazy else 'eager', bytes_consumed_before_the_raise='0..%d' % N),
+            d = dict(c['base'], C05P_RAISE=1, C05P_WITH_MSG=msg)
+            qs.append(vf.Query('raise/%s/%s' % (mname(msg), 'lazy' if lazy else 'eager'), unit(c, 'RAISE', msg, ['C05P_LAZY=1'] if lazy else []), h, defines=d,
+                               unwind=c['K'], unwindset=c['hloops'], mem_gb=3,
+                               bounds=dict(c['bnd'], tracking='lazy' if lazy else 'eager', bytes_consumed_before_the_raise='0..%d' % c['N']),
                                note='normal< R >::raise( in ): parse_error, what() == source:line:column: message, message(), position_string(), position_object()'))
     # (b) normal< R >::raise_nested( am )
     for msg in (1, 0):
         for mode, what in (('none', 'no exception being handled'), ('foreign', 'inside the handler of a foreign exception'), ('perr', 'inside the handler of a parse_error')):
-            d = dict(base, C05P_NESTED=1, C05P_WITH_MSG=msg)
-            qs.append(vf.Query('raise_nested/%s/%s' % (mname(msg), mode), unit('NESTED', msg), h, defines=d, cbmc_defines={'VF_SPLIT': 1, 'V_' + mode: 1},
-                               unwind=K, unwindset=hloops, mem_gb=3, bounds=dict(bnd, handled=what),
+            d = dict(c['base'], C05P_NESTED=1, C05P_WITH_MSG=msg)
+            qs.append(vf.Query('raise_nested/%s/%s' % (mname(msg), mode), unit(c, 'NESTED', msg), h, defines=d, cbmc_defines={'VF_SPLIT': 1, 'V_' + mode: 1},
+                               unwind=c['K'], unwindset=c['hloops'], mem_gb=3, bounds=dict(c['bnd'], handled=what),
                                note='normal< R >::raise_nested( am ): parse_error for am that is a std::nested_exception; nested_ptr() is exactly the exception being handled'))
-    # (c) the real rules under the default control, (d) parse_nested
+    # (c) the real rules under the default control, (d) parse_nested: two exceptions are built and inspected per run, which is 3-10 times as costly
+    # (measured with the big ranges: 600-1650 s per query); both tiers use the small ranges, the thorough tier runs every family with and without error_message
+    c = setup(False)
     rules = [(1, 1), (0, 0)] if quick else [(m, f) for m in (1, 0) for f in range(5)]
     for msg, fam in rules:
-        d = dict(base, C05P_RULES=1, C05P_WITH_MSG=msg, C05P_FAMILY=fam)
-        qs.append(vf.Query('rules/%s/%s' % (FAM[fam], mname(msg)), unit('RULES', msg, ['C05P_FAMILY=%d' % fam]), h, defines=d,
-                           unwind=K + 1, unwindset=hloops, mem_gb=4, timeout=None if quick else 2400,
-                           bounds=dict(bnd, grammar='seq< star< one< p, \\n > >, %s< G > >, G := seq< one< a >, sor< d [action throws], must< c > > >' % FAM[fam]),
+        d = dict(c['base'], C05P_RULES=1, C05P_WITH_MSG=msg, C05P_FAMILY=fam)
+        qs.append(vf.Query('rules/%s/%s' % (FAM[fam], mname(msg)), unit(c, 'RULES', msg, ['C05P_FAMILY=%d' % fam]), h, defines=d,
+                           unwind=c['K'] + 1, unwindset=c['hloops'], mem_gb=4,
+                           bounds=dict(c['bnd'], grammar='seq< star< one< p, \\n > >, %s< G > >, G := seq< one< a >, sor< d [action throws], must< c > > >' % FAM[fam]),
                            note='what the caller of parse() sees: converted (nested) or unchanged exception, position where the guarded rule began'))
     for msg in ((0,) if quick else (1, 0)):
-        d = dict(base, C05P_PNESTED=1, C05P_WITH_MSG=msg)
-        qs.append(vf.Query('parse_nested/%s' % mname(msg), unit('PNESTED', msg), h, defines=d, unwind=K + 1, unwindset=hloops, mem_gb=4, timeout=None if quick else 2400,
-                           bounds=dict(bnd, grammar='seq< star< one< p, \\n > >, G >', ambient='position( byte, line, column, source ) symbolic'),
+        d = dict(c['base'], C05P_PNESTED=1, C05P_WITH_MSG=msg)
+        qs.append(vf.Query('parse_nested/%s' % mname(msg), unit(c, 'PNESTED', msg), h, defines=d, unwind=c['K'] + 1, unwindset=c['hloops'], mem_gb=4,
+                           bounds=dict(c['bnd'], grammar='seq< star< one< p, \\n > >, G >', ambient='position( byte, line, column, source ) symbolic'),
                            note='what the caller of parse_nested( am, in ) sees'))
     return qs
